@@ -274,6 +274,12 @@ func (e *Env) RandomCall() Call {
 	case r < 89:
 		return e.CreateIndex(ns, e.IndexArg())
 	case r < 92:
+		if g.P(30) {
+			if g.P(25) {
+				return e.DropIndexByKey(ns, d("_id", int32(1)))
+			}
+			return e.DropIndexByKey(ns, e.IndexArg().Key)
+		}
 		return e.DropIndex(ns, indexNames[g.N(len(indexNames))])
 	case r < 93:
 		return e.DropAllIndexes(ns)
